@@ -6,6 +6,6 @@ git diff --quiet || { echo "/repo has uncommitted changes"; exit 2; }
 git apply "$P" || { echo "patch does not apply"; exit 2; }
 cd /verif
 VERIF_EVIDENCE_DIR=/verif/target/mutant-evidence timeout -k 5 "$T" ./check "$ID" --tier quick "$@" > /verif/target/mrun.out 2>&1; rc=$?
-pkill -9 -f '/verif/target/release/glas-verif' 2>/dev/null
+pkill -9 -f '^/verif/target/release/glas-verif' 2>/dev/null
 echo "== $ID rc=$rc $(grep -m1 -E 'violation:|INCONCLUSIVE' /verif/target/mrun.out | cut -c1-400)"
 cd /repo && git checkout -- . 
